@@ -10,7 +10,11 @@
 (*      "ss":"Transfer","se":"NoError","held":0,"eq":0,                    *)
 (*      "s2r":[{"t":"data","seq":1,"pay":2,"sid":"ok","from":"S"}],        *)
 (*      "r2s":[{"t":"res"}]}}                                              *)
-(*  {"e":"Fault","k":"Dup","o":{...}}  {"e":"Inject","w":"from","seq":2,..} *)
+(*  {"e":"Fault","k":"Dup","o":{...}}                                       *)
+(*  {"e":"Inject","w":"from|res|sid","t":"open|data|close","seq":2,"o":..}  *)
+(*  (an element with the right sid from a stranger / another resource of    *)
+(*  the sender's account, or from the sender for another session; in o.s2r  *)
+(*  its "from" is "X" / "Y" / "S" and its "sid" "ok" / "bad")               *)
 (*  {"e":"Burst","k":65535,"done":65535,"o":{...}}                          *)
 (*  {"e":"End","o":{..., "eq":1,"rlen":12000,"slen":12000,"rsha":..,        *)
 (*                  "ssha":..,"rfin":1,"sfin":1,"offered":true, ...}}       *)
@@ -27,7 +31,10 @@
 (*  - model:   Ibb's action for the logged step, W = 65536;                 *)
 (*  - monitor: `mon`, from logged steps only (number of stream faults, offer *)
 (*             made); the C19 predicates of Ibb are evaluated on the logged *)
-(*             outcome: P_Safe at every step, P_FaultDetected and           *)
+(*             outcome: P_Safe at every step, P_ForeignInert at every        *)
+(*             delivery of an element that is not from the offering JID for  *)
+(*             this session (job state, error and blocks written unchanged), *)
+(*             P_FaultDetected and           *)
 (*             P_CleanSuccess at End (quiescent by construction of the      *)
 (*             harness, and checked: both logged channels empty);           *)
 (*  - compare: model projection vs logged observation; a mismatch (e.g. a   *)
@@ -41,7 +48,11 @@ VARIABLES l, cid, mon, viol, ndiv, divs, dflag, ncases, nfaulted, nclean
 
 tvars == <<vars, l, cid, mon, viol, ndiv, divs, dflag, ncases, nfaulted, nclean>>
 
-Mon0 == [nflt |-> 0, offered |-> FALSE, kinds |-> <<>>, ann |-> "both"]
+\* prs/pre/prw: the previous observation of the job; phf: the stanza then at the head of the channel
+\* to the receiver did not come from the offering full JID for this session
+Mon0 == [nflt |-> 0, offered |-> FALSE, kinds |-> <<>>, ann |-> "both",
+         prs |-> "None", pre |-> "NoError", prw |-> 0, phf |-> FALSE]
+HeadForeign(o) == Len(o.s2r) > 0 /\ (o.s2r[1].from # "S" \/ o.s2r[1].sid # "ok")
 
 TInit ==
     /\ Init /\ n = 0
@@ -63,19 +74,22 @@ ModelAct(ev) ==
       [] ev.e = "RDeliver" -> RDeliver
       [] ev.e = "SDeliver" -> SDeliver
       [] ev.e = "Fault"    -> Fault(ev.k)
-      [] ev.e = "Inject"   -> Inject(ev.w, ev.seq)
+      [] ev.e = "Inject"   -> Inject(ev.w, ev.t, ev.seq)
       [] ev.e = "Burst"    -> Burst(ev.k)
       [] OTHER             -> FALSE
 
 MonNext(m, ev) ==
-    [ann |-> m.ann,
+    [ann |-> m.ann, prs |-> ev.o.rs, pre |-> ev.o.re, prw |-> ev.o.rw, phf |-> HeadForeign(ev.o),
      nflt |-> IF ev.e = "Fault" THEN m.nflt + 1 ELSE m.nflt,
      offered |-> m.offered \/ ev.e = "Offer",
      kinds |-> IF ev.e = "Fault" THEN Append(m.kinds, ev.k) ELSE m.kinds]
 
 \* property predicates on logged facts
-FailedStep(m, o) ==
-    {p \in {"Safe"} : o.eq # -1 /\ ~P_Safe(m.ann, o.rs, o.re, o.eq = 1)}
+FailedStep(m, ev) ==
+    LET o == ev.o IN
+    {p \in {"Safe", "ForeignInert"} :
+        CASE p = "Safe" -> o.eq # -1 /\ ~P_Safe(m.ann, o.rs, o.re, o.eq = 1)
+          [] p = "ForeignInert" -> ev.e = "RDeliver" /\ ~P_ForeignInert(m.phf, m.prs, m.pre, m.prw, o.rs, o.re, o.rw)}
 FailedEnd(m, o) ==
     LET q == m.offered /\ Len(o.s2r) = 0 /\ Len(o.r2s) = 0 IN
     {p \in {"Safe", "FaultDetected", "CleanSuccess"} :
@@ -98,7 +112,7 @@ OpStep(ev) ==
     /\ \/ ModelAct(ev)
        \/ (~ENABLED ModelAct(ev)) /\ UNCHANGED vars
     /\ mon' = MonNext(mon, ev)
-    /\ viol' = viol \cup {[case |-> cid, line |-> l, prop |-> p, e |-> ev.e] : p \in FailedStep(mon, ev.o)}
+    /\ viol' = viol \cup {[case |-> cid, line |-> l, prop |-> p, e |-> ev.e] : p \in FailedStep(mon, ev)}
     /\ Diverge(Proj' # Obs(ev.o), Proj', Obs(ev.o))
     /\ UNCHANGED <<cid, ncases, nfaulted, nclean>>
 
